@@ -1,0 +1,90 @@
+//go:build verif
+
+// Contracts of package memory for the gocv verifier (properties C14, C15,
+// C16). Comment-only: no Go code is compiled from this file.
+//
+// Every memory is specified against its abstract byte view: the view after a
+// history is the map address -> byte given by the writes in order (each value
+// zero-extended or truncated to its write width, little-endian; for Bytes and
+// Overlay the initial/base blocks come first). The receivers below are built
+// by the real constructors and the real Store calls of a history h of the
+// verifier's history corpus, with all addresses and values arbitrary:
+//   sparse_hist(h)  – NewSparse() and the writes of h
+//   bytes_hist(h)   – NewBytes(blocks of h) and the constant writes of h
+//   overlay_hist(h) – NewOverlay(NewBytes(blocks of h), NewSparse()) and the writes of h
+// hist_has(x): some write (or block) of the history covers address x;
+// hist_val(a, w): the w bytes at a of the view, as a bit-vector.
+// Ranges that wrap around the address space are excluded (nowrap).
+
+package memory
+
+//@ func (*Sparse).Load
+//@   enum h in SPARSEHIST, w in LOADW
+//@   input:m sparse_hist(h)
+//@   requires nowrap(addr, w)
+//@   ensures[ok] result1 == (forall i int :: 0 <= i && i < w ==> hist_has(addr + i))
+//@   ensures[width] result1 ==> width(result0) == w
+//@   ensures[value] result1 ==> val(result0) == hist_val(addr, w)
+
+//@ func (*Sparse).Missing
+//@   enum h in SPARSEHIST, w in LOADW
+//@   input:m sparse_hist(h)
+//@   requires nowrap(addr, w)
+//@   ensures[wf] wfl(result.intvs)
+//@   ensures[set] forall x uint64 :: meml(result.intvs, x) == (addr <= x && x < addr + w && !hist_has(x))
+
+//@ func (*Sparse).Blocks
+//@   enum h in SPARSEHIST
+//@   input:m sparse_hist(h)
+//@   ensures[wf] wfl(result.intvs)
+//@   ensures[set] forall x uint64 :: meml(result.intvs, x) == hist_has(x)
+
+//@ func NewBytes
+//@   enum h in BLOCKLAYOUTS
+//@   input:blocks blocklist(h)
+//@   ensures[error-iff-overlap] (result1 != nil) == blocks_overlap()
+//@   ensures[owns-its-bytes] result1 == nil ==> bytes_fresh(result0)
+
+//@ func (*Bytes).Load
+//@   enum h in BYTESHIST, w in LOADW
+//@   input:b bytes_hist(h)
+//@   requires nowrap(addr, w)
+//@   ensures[ok] result1 == (forall i int :: 0 <= i && i < w ==> hist_has(addr + i))
+//@   ensures[width] result1 ==> width(result0) == w
+//@   ensures[value] result1 ==> val(result0) == hist_val(addr, w)
+//@   ensures[inputs-untouched] hist_inputs_unchanged()
+
+//@ func (*Bytes).Missing
+//@   enum h in BYTESHIST, w in LOADW
+//@   input:b bytes_hist(h)
+//@   requires nowrap(addr, w)
+//@   ensures[wf] wfl(result.intvs)
+//@   ensures[set] forall x uint64 :: meml(result.intvs, x) == (addr <= x && x < addr + w && !hist_has(x))
+
+//@ func (*Bytes).Blocks
+//@   enum h in BYTESHIST
+//@   input:b bytes_hist(h)
+//@   ensures[wf] wfl(result.intvs)
+//@   ensures[set] forall x uint64 :: meml(result.intvs, x) == hist_has(x)
+
+//@ func (*Overlay).Load
+//@   enum h in OVERLAYHIST, w in LOADW
+//@   input:o overlay_hist(h)
+//@   requires nowrap(addr, w)
+//@   ensures[ok] result1 == (forall i int :: 0 <= i && i < w ==> hist_has(addr + i))
+//@   ensures[width] result1 ==> width(result0) == w
+//@   ensures[value] result1 ==> val(result0) == hist_val(addr, w)
+//@   ensures[base-untouched] hist_inputs_unchanged()
+
+//@ func (*Overlay).Missing
+//@   enum h in OVERLAYHIST, w in LOADW
+//@   input:o overlay_hist(h)
+//@   requires nowrap(addr, w)
+//@   ensures[wf] wfl(result.intvs)
+//@   ensures[set] forall x uint64 :: meml(result.intvs, x) == (addr <= x && x < addr + w && !hist_has(x))
+
+//@ func (*Overlay).Blocks
+//@   enum h in OVERLAYHIST
+//@   input:o overlay_hist(h)
+//@   ensures[wf] wfl(result.intvs)
+//@   ensures[set] forall x uint64 :: meml(result.intvs, x) == hist_has(x)
